@@ -280,7 +280,9 @@ pub fn build(
                     if let ("size", [grammar::Expr::IntLiteral(size_)]) =
                         (ident.as_str(), exprs.as_slice())
                     {
-                        size = Some(*size_ as usize);
+                        size = Some(vftable::slot_count("size", *size_).with_context(|| {
+                            format!("while building vftable for type `{resolvee_path}`")
+                        })?);
                     }
                 }
 
